@@ -7,6 +7,7 @@ pub mod findings;
 pub mod gen;
 pub mod hang;
 pub mod journal;
+pub mod logsink;
 pub mod model;
 pub mod props;
 pub mod runner;
